@@ -282,3 +282,25 @@ func VerifH_C11_TextSetOrder() {
 	want := verifrt.Or(vRuleMatches(ka, ra, probe), vRuleMatches(kb, rb, probe))
 	verifrt.Assert(m.Match(vWire(probe)) == want, "the set matches exactly the union of its entries, independent of load order")
 }
+
+// VerifH_C11_RegexpVerbatim: the regular-expression engine is outside the encoding, but what is handed to it is not:
+// for a "regexp:" entry the expression is compiled exactly as written (regexp syntax is case-sensitive: \D is not
+// \d), and an entry the engine rejects is an error, not silently dropped.
+func VerifH_C11_RegexpVerbatim() {
+	var got []string
+	fail := verifrt.Bool("compile-fails")
+	verifrt.Redirect("(*github.com/IrineSistiana/mosproxy/internal/domain_matcher.RegexpMatcher).Add", func(m *RegexpMatcher, exp string) error {
+		got = append(got, exp)
+		if fail {
+			return vEOF
+		}
+		return nil
+	})
+	exp := verifrt.BytesN("exp", 1+verifrt.Choose("exp.len", 3))
+	rule := append([]byte("regexp:"), exp...)
+	m := NewMixMatcher()
+	err := m.Add(rule)
+	verifrt.Reach("added")
+	verifrt.Assert(len(got) == 1 && verifrt.EqBytes([]byte(got[0]), exp), "the expression reaches the regexp engine octet for octet as written")
+	verifrt.Assert((err != nil) == fail, "an expression the engine rejects is reported, a good one accepted")
+}
